@@ -39,10 +39,10 @@ def compare(ck, p, data, real, model, spec, cfg_every=True, label='pel', extra=N
             ck.fail('a well-formed PEL is not decoded', rp | {'actual': real[:3]}, label + '_rejected')
         elif real[2] != spec[1]:
             ck.fail('decoded document differs from what the property prescribes', rp | {'difference': first_diff(real[2], spec[1])}, label + '_doc')
-        elif route_sample(ck, data):
+        elif route_sample(ck, data, force=bool((extra or {}).get('force_routes'))):
             # the same document through the COMMAND LINE, by every route that shows one PEL: -f, -a, -j into an empty directory, and -j again
             # after the file was replaced in place by this PEL (same name, same entry id, older time stamp)
-            sub_ok = fixture_free and ck.dist.get('command-line route -f with a stdout that takes ASCII only', 0) < 8
+            sub_ok = fixture_free and (ck.dist.get('command-line route -f with a stdout that takes ASCII only', 0) < 8 or bool((extra or {}).get('force_routes')))
             for route, got in cli_routes(data, allow_plugins=allow_plugins, subprocess_too=sub_ok):
                 ck.count('command-line route %s' % route)
                 if got != spec[1]:
@@ -64,11 +64,11 @@ def compare(ck, p, data, real, model, spec, cfg_every=True, label='pel', extra=N
         ck.disagree('document differs from model', rp | {'difference': first_diff(real[2], model[2]), 'eid': (real[1], model[1])})
 
 
-def route_sample(ck, data):
+def route_sample(ck, data, force=False):
     """a deterministic sample of the cases of a run (about one in fifteen, at most 40)"""
     import hashlib
     n = ck.dist.get('cases taken through the command line', 0)
-    if n >= 40 or hashlib.sha1(data).digest()[0] % 15 != 0:
+    if not force and (n >= 40 or hashlib.sha1(data).digest()[0] % 15 != 0):
         return False
     ck.dist['cases taken through the command line'] = n + 1
     return True
